@@ -975,7 +975,7 @@ def gen_stepper(rng, variant, nops):
             ops.append(["filter", rng.choice([0, 0, 1, 2, 3])])
         elif r < 0.52:
             ops.append(["heralds", {str(rng.randrange(m)): 1} if rng.random() < 0.6 else {}])
-            if rng.random() < 0.5:
+            if rng.random() < 0.7:
                 ops[-1].append("same")
         else:
             q = rng.random()
@@ -1341,6 +1341,9 @@ def fail_sig(h, f):
         return "slos-mask-change-after-input"
     if fam == "backend" and var == "SLOS" and ks.count("in") >= 2 and "mask" in ks:
         return "slos-mask-reinstantiated"
+    if fam == "backend" and var != "SLOS" and "mask" in ks and "cutoff" not in ks and ks.count("in") >= 2 \
+            and "e" not in real:
+        return "backend-mask-instance-across-inputs"
     if fam == "backend" and var == "MPS" and ("cutoff" in ks or ks.count("in") >= 2):
         return "mps-cutoff-history"
     if fam == "stepper" and "e" not in real and ("filter" in ks or "heralds" in ks):
@@ -1722,7 +1725,7 @@ def run(chk: core.Check):
             jobs.append((f"random:simulator:{v}", hs[k::2]))
     for v in ["SLOS", "Naive"]:
         hs = [gen_stepper(random.Random(seed_rng.getrandbits(64)), v, random.Random(seed_rng.getrandbits(32)).randint(6, min(nops, 30)))
-              for _ in range(chk.pick(24, 96))]
+              for _ in range(chk.pick(30, 96))]
         for k in range(6):
             jobs.append((f"random:stepper:{v}", hs[k::6]))
     for v in ["SLOS", "Naive", "MPS"]:
